@@ -125,27 +125,34 @@ func runC16(c c16Case) (res string) {
 			if int(l) != c.N {
 				return fmt.Sprintf("Len()=%d want %d", l, c.N)
 			}
-			// Len after further mutations (one, two, three of them; then back)
+			// Len after groups of 2, 1, 2, 3, 4 further mutations (sets of new keys, then deletes of them)
 			want := c.N
-			for step := 0; step < 6; step++ {
-				k := []byte(fmt.Sprintf("~extra%d", step%3))
-				if step < 3 {
-					if err := col.SetItem(&gkvlite.Item{Key: k, Val: []byte("x"), Priority: int32(step)}); err != nil {
-						return "set: " + err.Error()
+			next, added := 0, 0
+			for _, group := range []int{2, 1, 2, 3, 4, 2} {
+				for m := 0; m < group; m++ {
+					if added < 6 {
+						k := []byte(fmt.Sprintf("~extra%d", next))
+						next++
+						added++
+						if err := col.SetItem(&gkvlite.Item{Key: k, Val: []byte("x"), Priority: int32(next)}); err != nil {
+							return "set: " + err.Error()
+						}
+						want++
+					} else {
+						next--
+						k := []byte(fmt.Sprintf("~extra%d", next))
+						if _, err := col.Delete(k); err != nil {
+							return "delete: " + err.Error()
+						}
+						want--
 					}
-					want++
-				} else {
-					if _, err := col.Delete(k); err != nil {
-						return "delete: " + err.Error()
-					}
-					want--
 				}
 				l, err := col.Len()
 				if err != nil {
 					return "Len error: " + err.Error()
 				}
 				if int(l) != want {
-					return fmt.Sprintf("after %d further mutation(s): Len()=%d want %d", step+1, l, want)
+					return fmt.Sprintf("after a group of %d further mutation(s): Len()=%d want %d", group, l, want)
 				}
 			}
 			return ""
